@@ -249,6 +249,8 @@ def run(rep):
                         how = fn_full[:120]
                         ok5b = re.search(r"Index<petgraph::graph_impl::NodeIndex", fn_full) is not None or re.search(r"node_weight", fn_full) is not None
                     break
+            if how == "unresolved":
+                raise AnalysisError(f"C20 R5b: the key of the disambiguation lookup at {f.file}:{t['ln']} is not the `.name` of a value this rule can trace")
             rep.ob("R5b-disambiguation-looked-up-by-package-name", f"{f.name}|contains#{n5b}", ok5b, f.file, t["ln"],
                    "a dependency line gets its source when the *target package's* name is ambiguous (that is what the set holds and what the reader resolves by); "
                    f"the key looked up here is the `.name` of a value obtained from `{how}`")
